@@ -13,6 +13,7 @@ TB = [
     "hypotheses of the theorems = what gather guarantees about its own rows (f_i = k_i/N, f_weighted_i = w_i/W, bp_i = k_i*scaled, positive pairwise-disjoint unique overlaps, sum k_i <= N, all found iff all weight found): this is property C07; the adapter re-checks on every case that the gather rows it obtains by RUNNING gather have exactly this form",
     "kreport / bioboxes / human number formatting is modelled exactly (fmul, int(), '%.2f' / '%.1f' as round-half-even of the exact binary value: CPython's float formatting is assumed correctly rounded); multi-query runs are modelled (one gather CSV per query, krona / lineage_summary / csv_summary aggregation)",
     "the writers are modelled as operations on ONE shared QueryTaxResult (make_full_summary / make_human_summary sort the per-rank lists in place; kreport, bioboxes, krona, lineage_summary read them): the stream runs random sequences of writers on one object and requires each output to equal the same writer's output on a fresh object, and runs `tax metagenome -F <random subset / thorough: every subset>` comparing every file with the in-process writer run in the command's own order",
+    "load_gather_results' grouping of CSV rows into one result per query is modelled as the code does it (dictionary lookup by query name, first-appearance order, a query arriving in a second file refused, empty file refused, per-row --fail-on-missing-taxonomy); multi-query cases are delivered as one CSV per query AND as one CSV with the queries' rows interleaved / shuffled, as several CSVs, with a query split over files, with a repeated row, with an empty CSV; the oracle sums each query's rows by query name independently of the loader; gather CSVs with essential or optional columns removed are covered (op dropcols)",
     "csv module, FileInputCSV, argparse; ANI estimation (containment_to_distance) is not modelled (property C17)",
 ]
 AS = [
